@@ -1,1 +1,3 @@
 pub mod c01_c02;
+pub mod c09;
+pub mod c10;
